@@ -16,5 +16,6 @@ func controlsC01() []Control {
 		{Name: "leave computation filters the live player list in place", Expect: "R6", Mutate: replaceIn("(*tableEngine).calcLeavePlayers", "newPlayerStates := make([]*TablePlayerState, 0)", "newPlayerStates := currentPlayers[:0]", 0)},
 		{Name: "bankroll excluded from the JSON clone", Expect: "R4", Mutate: replaceInFile("/table.go", "Bankroll       int64                     `json:\"bankroll\"`", "Bankroll       int64                     `json:\"-\"`")},
 		{Name: "add-on without the engine lock", Expect: "R7", Mutate: replaceIn("(*tableEngine).PlayerRedeemChips", "\tte.lock.Lock()\n\tdefer te.lock.Unlock()\n", "", 0)},
+		{Name: "failed hand start puts the pre-open table back (chips credited meanwhile are dropped)", Expect: "R9", Mutate: replaceBoth("(*tableEngine).tableGameOpen", "\tte.table = newTable\n", "\tprevTable := te.table\n\tte.table = newTable\n", "\treturn te.startGame()\n", "\tif err := te.startGame(); err != nil {\n\t\tte.table = prevTable\n\t\treturn err\n\t}\n\treturn nil\n")},
 	}
 }
